@@ -68,7 +68,10 @@ def lean_stage(prop: str, extra_modules=()):
         t0 = time.time()
         rc, out = sh(["lake", "build", mod, *extra_modules], cwd=LEAN)
         if rc != 0:
-            errs = [l for l in out.split("\n") if "error" in l][:8]
+            ol = out.split("\n")
+            # an error line together with the line that follows it (Lean prints the failing goal / theorem context there)
+            errs = [(l + " ‖ " + ol[i + 1].strip()[:160] if i + 1 < len(ol) and ol[i + 1].strip() and "error" not in ol[i + 1] else l)
+                    for i, l in enumerate(ol) if "error" in l][:8]
             res["failures"].append("lake build failed: " + " | ".join(errs))
         # the driver is a tool of the correspondence, not a proof obligation: if it does not
         # build (infrastructure), fall back to the last built binary or stop with exit 2
